@@ -535,6 +535,20 @@ def rule_R5(toks, fired):
     return toks
 
 
+def rule_R13(toks, fired):
+    """EXPR.unwrap()  ->  EXPR.unwrap_or_panic()   (documented panic modelled as divergence: the call site gets no
+    proof obligation; the prelude declares unwrap_or_panic with `ensures` only.  Used where the statement allows a
+    loud failure, e.g. "reported as errors, never as a silently wrong solution")"""
+    for i, t in enumerate(toks):
+        if t.kind == "ident" and t.text == "unwrap":
+            pv = prev_code(toks, i - 1)
+            nx = next_code(toks, i + 1)
+            if toks[pv].text == "." and toks[nx].text == "(" and toks[next_code(toks, nx + 1)].text == ")":
+                t.text = "unwrap_or_panic"
+                fired["R13"] = fired.get("R13", 0) + 1
+    return toks
+
+
 def _contains_continue(toks, lo, hi):
     """is there a `continue` in lo..hi that belongs to this loop (not to a nested loop / closure)?"""
     i = lo
@@ -642,9 +656,9 @@ def rule_R12(toks, fired):
     return out
 
 
-RULES = {"R5": rule_R5, "R1": rule_R1, "R1f": rule_R1f, "R2": rule_R2, "R3": rule_R3, "R4": rule_R4, "R6": rule_R6, "R7": rule_R7,
+RULES = {"R13": rule_R13, "R5": rule_R5, "R1": rule_R1, "R1f": rule_R1f, "R2": rule_R2, "R3": rule_R3, "R4": rule_R4, "R6": rule_R6, "R7": rule_R7,
          "R10": rule_R10, "R11": rule_R11, "R12": rule_R12}
-RULE_ORDER = ["R12", "R7", "R6", "R10", "R4", "R3", "R5", "R11", "R2", "R1", "R1f"]
+RULE_ORDER = ["R12", "R7", "R6", "R13", "R10", "R4", "R3", "R5", "R11", "R2", "R1", "R1f"]
 
 
 def apply_rules(toks, rules, fired):
@@ -1049,6 +1063,9 @@ def render_item(unit, kind, opts, sections):
         emitted = pre + text
     elif kind in ("const", "type"):
         item = apply_rules(item, rules, fired)
+        # visibility widened to `pub` (stated drop)
+        kwi = next(i for i, t in enumerate(item) if t.kind == "ident" and t.text in ("const", "type"))
+        item = [S("pub"), S(" ", "ws")] + item[kwi:]
         ruled = item
         emitted = untok(item)
     elif kind == "trait":
